@@ -72,7 +72,7 @@ def run(tier, seed, replay=None):
         for i, pm in dead[:3]:
             res.violation({"property": PID, "kind": "deadlock: goroutines wait for locks none of them can get",
                            "init": pm["program"]["init"], "threads": pm["program"]["threads"], "schedule": pm["dead_sched"],
-                           "note": "LazyExt / PeekExt install an external lookup whose Get / Type call back into the scope they serve (Define resp. a symbol listing)"
+                           "note": "String, DeepCopy, Addr, GetEnvFromPath are explored for deadlock and panic only; LazyExt / PeekExt install an external lookup whose Get / Type call back into the scope they serve (Define resp. a symbol listing)"
                                    if pm["program"].get("reentrant") else ""})
         for i, pm in [(i, pm) for i, pm in enumerate(meta["programs"]) if pm.get("panics")][:2]:
             res.violation({"property": PID, "kind": "an environment operation panicked while an external lookup called back into its scope",
@@ -88,6 +88,9 @@ def run(tier, seed, replay=None):
         if raced:
             res.violation({"property": PID, "kind": "data race inside package env under concurrent operations on one scope",
                            "race_report": pr.stdout[-3500:], "how_to_replay": "harness (-race) c13race -seed %d -n %d" % (seed, rounds)})
+        elif pr.returncode == 67:
+            res.violation({"property": PID, "kind": "concurrent operations on one scope deadlock: a round of environment operations never ended",
+                           "goroutines": pr.stdout[-6000:], "how_to_replay": "harness (-race) c13race -seed %d -n %d" % (seed, rounds)})
         elif pr.returncode != 0:
             res.violation({"property": PID, "kind": "concurrent operations on one scope crash", "output": pr.stdout[-3000:],
                            "how_to_replay": "harness (-race) c13race -seed %d -n %d" % (seed, rounds)})
